@@ -19,7 +19,7 @@ RULE = ("same program / history generator as C01 (DAGs of 3-12 nodes, every sign
         "equal-value writes, arena signals / memos disposed in the middle of the history), half of the "
         "cases with 1-3 effects (Effect::new, RenderEffect, watch, isomorphic; some writing signals) and schedules (poll the "
         "k-th ready task, run to idle); plus the 'zones' (untrack zones with several reads), 'immediate' (ImmediateEffect subscribers, "
-        "oracle only) and 'deep' (chains of 270-700 memos) families of C01. Observation = every body invocation with the values it read. A case is non-trivial "
+        "oracle only) and 'deep' (chains of 270-700 memos) families of C01. Since the anchor coverage audit half of the cases of every stream carry API VARIANTS on their nodes (fields the model's decoder does not read, so the traces are still compared with the model): every signal / memo / wrapper is read through one of get, with, *read(), track() + get_untracked(), try_get (and the untracked siblings); every signal is written through one of set, update, maybe_update(true), a write() guard, try_set, try_update, a SignalSetter (from(WriteSignal) / from(RwSignal) / map), update_untracked + notify, a MappedSignal / ArcMappedSignal view, write_untracked + notify (and notified through notify(), an untouched write guard or update(|_| {})); memos are built with new / new_with_compare, new_owning (the body returns the changed flag) or as the other handle type and converted; derived signals also as MaybeSignal::derive, MaybeProp (from / derive), Signal<Option<T>>::from, Signal::from(MaybeSignal), derive_local / stored_local / Signal<_, LocalStorage>::from, From<T>; effects also as Effect::new_sync, Effect::watch_sync, RenderEffect::new_isomorphic / new_with_value, ImmediateEffect::new_isomorphic / new_scoped / new_mut; an effect is also disposed through Dispose::dispose / Effect::stop on its handle; a case flag makes the executor hand out a NEW waker on every poll (older wakers are dead) and another one switches untrack to untrack_with_diagnostics. A 'wide' family has 17-40 direct subscribers on one signal; a 'silent' family (oracle only) interleaves operations that are NOT writes (maybe_update returning false, write().untrack(), ...): nothing may run because of them; an 'adopt' family (oracle only) creates effects in the middle of the history. Observation = every body invocation with the values it read. A case is non-trivial "
         "when some body ran at least twice; distinct = distinct case hash.")
 TRUSTED = [
     "Coq 8.16.1 kernel (coqc); no axioms: every theorem of Properties_C09.v is 'Closed under the global context'",
@@ -28,6 +28,7 @@ TRUSTED = [
     "modelled, not verified: RwLock/Arc/Weak semantics (single thread), OBSERVER thread-local, futures::task::AtomicWaker "
     "(register / wake take the waker), arena storage, i64 arithmetic without overflow",
     "the ghost 'since' field (causes recorded since a node's last run) exists only in the model; the harness side is the independent Python cause tracker",
+    "API variants (coverage/C01.md, C09.md, C02.md): the variant fields of a case are ignored by the model's decoder (GraphRun.dec_decl / dec_op read the fields before them), so the model runs the construct each variant must be equivalent to (get for every read path, set for every write path, Effect::new for new_sync, Effect::watch for watch_sync, RenderEffect::new for new_isomorphic / new_with_value, owner cleanup for Dispose::dispose / Effect::stop); that equivalence is COMPARED (trace equality on every run) and judged by the Python oracle, NOT PROVED: the theorems speak about the modelled constructs",
 ]
 ASSUMPTIONS = [
     "single thread; bodies deterministic; memo bodies do not write signals",
@@ -44,6 +45,7 @@ ASSUMPTIONS = [
     "mark_dirty of its subscribers inside the effect's source check, once because that check then reports a change)",
     "deep chains (270-700 memos) are part of the generated graphs; stacked diamonds are kept to at most 4 per chain "
     "(the push phase re-propagates on every incoming path)",
+    "an operation that does not notify is not a write: maybe_update / try_maybe_update whose closure returns false, a write() guard that is untracked before it is dropped, update_untracked / write_untracked without a following notify() leave the value as it is in the generated cases; a value stored without notification (update_untracked that really changes it) is outside the property (the graph cannot know) and is not generated",
 ]
 LEVEL_TEXT = ("Coq proofs, over the same executable model as C01/C02 instrumented with ghost causes, that a memo body is invoked "
               "again only after a tracked source was written or a tracked memo changed, at most once per change, never because "
@@ -70,6 +72,8 @@ def _main_stream(rng, tier):
         yield dict(case=C.norm(X.with_flags(rng, prog, ops, 0.3 if i % 2 else 0)), kind="memos+effects", compare=True)
     for i in range(1000 if tier == "quick" else 10000):
         yield dict(case=C.norm(X.gen_zone_case(rng)), kind="zones", compare=True)
+    for i in range(40 if tier == "quick" else 400):
+        yield dict(case=C.norm(X.gen_wide_case(rng, rng.randint(17, 40), rng.choice([0, 1, 2, 3]))), kind="wide", compare=True)
     # operations that are NOT writes (maybe_update returning false, write().untrack(), ...): nothing may run
     for i in range(1500 if tier == "quick" else 15000):
         prog = X.gen_program(rng, rng.randint(3, 9), rng.choice([0, 1, 1, 2]), allow_wr=False, p_always=0.15)
@@ -95,7 +99,9 @@ def _main_stream(rng, tier):
             ops = X.gen_ops(rng, prog, rng.randint(6, 30), w=(0.35, 0.04, 0.25, 0.15, 0.16, 0.05), vals=(0, 1, 1, 2)) + [[4]]
         else:
             ops = X.gen_ops(rng, prog, rng.randint(6, 30), w=(0.42, 0.05, 0.53, 0, 0, 0), vals=(0, 1, 1, 2))
-        yield dict(case=C.norm([prog, ops]), kind="dynamic", compare=False)
+        if i % 2:
+            X.add_variants(rng, prog, 0.5)
+        yield dict(case=C.norm(X.with_flags(rng, prog, ops, 0.3 if i % 2 else 0)), kind="dynamic", compare=False)
 
 
 def generate(rng, tier):
